@@ -126,6 +126,19 @@ def run(ctx: Ctx, tier: str) -> Result:
                     want = {"ctx": ip[2], "tracepoint": ip[1]}
                     ok = all(pair.get(k) == v for k, v in want.items() if k in pair) and set(want) <= set(pair)
         uses_msg = any(isinstance(n, ast.Name) and n.id == ip[0] for n in t.nodes_in(g_, ast.Name))
+        # the processed message is data: it must never be used as a %-format string (a `%` in the template or in a value would
+        # make the logging module fail to render it, and the message is lost)
+        for c_ in t.calls_in(g_):
+            if not any(e.startswith("logging.") for e in t.resolve_call(c_, g_).ext) and not (isinstance(c_.func, ast.Attribute) and c_.func.attr in (
+                    "info", "debug", "warning", "error", "log", "critical")):
+                continue
+            fmt_has_msg = bool(c_.args) and any(isinstance(n, ast.Name) and n.id == ip[0] for n in ast.walk(c_.args[0]))
+            extra = c_.args[1:] if not (isinstance(c_.func, ast.Attribute) and c_.func.attr == "log") else c_.args[2:]
+            if fmt_has_msg and extra:
+                res.fail(Finding("C16.ROLE", g_.qname, c_, g_.loc(c_), "the message is passed to the logging module as part of the format string together with format "
+                                 "arguments: a `%` in the text or in a value breaks the rendering and the message is lost"))
+            elif fmt_has_msg:
+                res.ok("C16.ROLE", {"message handed over as finished text": g_.loc(c_)})
         if ok and uses_msg:
             res.ok("C16.ROLE", {"implementation": g_.qname, "labels": "ctx=%s tracepoint=%s" % (ip[2], ip[1])})
         elif ok is None and uses_msg:
@@ -193,6 +206,19 @@ def run(ctx: Ctx, tier: str) -> Result:
         else:
             res.fail(Finding("C16.PIPE", gf.qname, "<eval_watch>", gf.loc(), "get_field evaluates the field %d times through eval_watch (expected once)" % len(ew)))
 
+    # the text a field is replaced with is the string form of the value, whether or not the value was collected before
+    pv_ = p.func("deep.processor.variable_set_processor.VariableSetProcessor.process_variable")
+    rets_ = [r for r in t.nodes_in(pv_, ast.Return) if r.value is not None]
+    need(rets_, "VariableSetProcessor.process_variable returns nothing")
+    for r in rets_:
+        txts = ctx.expand.expand(r.value.elts[1], pv_) if isinstance(r.value, ast.Tuple) and len(r.value.elts) == 2 else []
+        want_ = "deep.processor.variable_processor.safe_str(%s)" % P(pv_, 2)
+        if txts and all(x in (want_, "str(%s)" % P(pv_, 2)) or x.endswith("safe_str(%s)" % P(pv_, 2)) for x in txts):
+            res.ok("C16.PIPE", {"field text": txts[0], "at": pv_.loc(r)})
+        else:
+            res.fail(Finding("C16.PIPE", pv_.qname, r, pv_.loc(r), "the text of an evaluated field is %s on this path, not the string form of the value: what a "
+                             "{field} is replaced with depends on whether the value had been collected before" % txts))
+
     # ---------------- SNAP
     from .common import expand_through
     sp0 = p.func(SNAP + "._process_action")
@@ -246,4 +272,6 @@ def run(ctx: Ctx, tier: str) -> Result:
             res.fail(Finding("C16.ONCE", lp.qname, tmpl[0], lp.loc(tmpl[0]), "log action renders %s, not the configured log_msg" % a))
     else:
         res.fail(Finding("C16.ONCE", lp.qname, "<process_log>", lp.loc(), "log action renders the message %d times" % len(tmpl)))
+    from .common import borrow
+    borrow(ctx, res, tier, "c11", ("C11.BUILD",), "C16.BUILD", "exactly one action carries the log message: the snapshot action, or the log action when collection is off")
     return res
